@@ -1,10 +1,38 @@
 mod actor;
 mod exec;
+mod families;
+mod gen;
+mod history;
+mod minimise;
 mod model;
+mod monitors;
 mod ops;
+mod profiles;
 mod world;
 
+use exec::{RunResult, SchedCfg};
 use model::*;
+use monitors::Violation;
+use serde::{Deserialize, Serialize};
+use std::collections::{BTreeMap, BTreeSet};
+use std::hash::{Hash, Hasher};
+
+pub fn features() -> Vec<&'static str> {
+    let mut v = Vec::new();
+    if cfg!(feature = "f_tracing") {
+        v.push("tracing");
+    }
+    if cfg!(feature = "f_metrics") {
+        v.push("metrics");
+    }
+    if cfg!(feature = "f_test_utils") {
+        v.push("test-utils");
+    }
+    if cfg!(feature = "f_deadlock") {
+        v.push("deadlock-detection");
+    }
+    v
+}
 
 fn install_panic_hook() {
     std::panic::set_hook(Box::new(|info| {
@@ -18,29 +46,370 @@ fn install_panic_hook() {
         if tokio::sim::current_task().is_some() {
             // a panic inside a simulated task is part of the simulated behaviour
             world::log(world::EvKind::Panic { msg: world::normalise_ids(&msg) });
+        } else if msg.contains("Mailbox capacity must be greater than 0") {
+            // spawn_with_mailbox_capacity(0) in the root future: caught and logged by exec
         } else {
             eprintln!("HARNESS PANIC: {msg} at {:?}", info.location());
         }
     }));
 }
 
-fn main() {
-    install_panic_hook();
-    let sc = Scenario {
-        actors: vec![ActorSpec { cap: Some(2), ..Default::default() }],
-        clients: vec![
-            vec![Op::Tell { h: 0, m: Msg::work(1) }, Op::Ask { h: 0, m: Msg::with(2, vec![Op::Sleep(5)]) }, Op::Drop { h: 0 }],
-            vec![Op::AskT { h: 0, m: Msg::work(3), ms: 2 }],
-        ],
-        probes: vec![],
-        erase: None,
+pub fn h64<T: Hash>(t: &T) -> u64 {
+    let mut h = std::collections::hash_map::DefaultHasher::new();
+    t.hash(&mut h);
+    h.finish()
+}
+
+/// digest of the whole history (determinism / replay comparison)
+pub fn log_digest(r: &RunResult) -> u64 {
+    h64(&(&r.log, &r.rep.decisions))
+}
+
+/// order fingerprint: which events happened in which order, without times
+pub fn order_fp(r: &RunResult) -> u64 {
+    let mut h = std::collections::hash_map::DefaultHasher::new();
+    for e in &r.log {
+        e.task.hash(&mut h);
+        e.k.hash(&mut h);
+    }
+    h.finish()
+}
+
+pub fn mix(seed: u64, i: u64) -> u64 {
+    let mut r = tokio::sim::Rng(seed ^ i.wrapping_mul(0x9E37_79B9_7F4A_7C15));
+    r.next();
+    r.next()
+}
+
+pub const DEFAULT_CAP: usize = 32;
+
+pub struct Judged {
+    pub res: RunResult,
+    pub violations: Vec<Violation>,
+    pub checked: monitors::Checked,
+}
+
+/// Execute and judge one (scenario, schedule).
+pub fn judge(prop: &str, sc: &Scenario, cfg: &SchedCfg) -> Judged {
+    let res = exec::execute(sc, cfg);
+    let (violations, checked) = {
+        let h = history::History::build(sc, &res, DEFAULT_CAP);
+        let (mut v, mut chk) = monitors::run_all(&h);
+        profiles::extra_monitors(prop, &h, &mut v, &mut chk);
+        (v, chk)
     };
-    for seed in 0..3 {
-        let cfg = exec::SchedCfg { seed, strategy: exec::StrategyCfg::Uniform, spurious_permille: 0, max_steps: 10000, replay: None };
-        let r = exec::execute(&sc, &cfg);
-        println!("--- seed {seed} phases {:?} decisions {:?}", r.phases, r.rep.decisions);
-        for e in &r.log {
-            println!("{}", serde_json::to_string(e).unwrap());
+    let violations = profiles::select(prop, violations);
+    Judged { res, violations, checked }
+}
+
+#[derive(Serialize, Deserialize)]
+pub struct ReplayFile {
+    pub property: String,
+    pub signature: String,
+    pub engine: String,
+    pub features: Vec<String>,
+    pub seed: u64,
+    pub run_index: u64,
+    pub scenario: Scenario,
+    pub sched: SchedCfg,
+    pub violation: Violation,
+    pub log_digest: String,
+    pub minimised: bool,
+    pub history: Vec<world::Ev>,
+}
+
+#[derive(Serialize, Default)]
+struct Stats {
+    property: String,
+    tier: String,
+    seed: u64,
+    shard: u64,
+    nshards: u64,
+    features: Vec<String>,
+    evaluations: u64,
+    scenarios: u64,
+    nontrivial: u64,
+    inconclusive: u64,
+    quiescent_with_pending: u64,
+    all_done: u64,
+    decisions_total: u64,
+    virtual_ms_total: u64,
+    checked: BTreeMap<String, u64>,
+    faults_fired: BTreeMap<String, u64>,
+    strategies: BTreeMap<String, u64>,
+    families: BTreeMap<String, u64>,
+    probes: BTreeMap<String, u64>,
+    violations: Vec<serde_json::Value>,
+    samples: Vec<serde_json::Value>,
+    wall_s: f64,
+    table_check: Option<u32>,
+    extra: BTreeMap<String, serde_json::Value>,
+}
+
+fn count_faults(sc: &Scenario, r: &RunResult, st: &mut Stats) {
+    use world::{EvKind, Out, RunOutEv};
+    let mut inc = |k: &str, n: u64| {
+        if n > 0 {
+            *st.faults_fired.entry(k.to_string()).or_insert(0) += n;
+        }
+    };
+    let mut last_drop = 0;
+    for e in &r.log {
+        match &e.k {
+            EvKind::Panic { msg } => {
+                if msg.contains("Deadlock detected") {
+                    inc("deadlock_panic", 1)
+                } else {
+                    inc("panic_in_hook", 1)
+                }
+            }
+            EvKind::StartExit { out: Out::Err(_), .. } => inc("on_start_error", 1),
+            EvKind::StopExit { out: Out::Err(_), .. } => inc("on_stop_error", 1),
+            EvKind::RunExit { out: RunOutEv::Err(_), .. } => inc("on_run_error", 1),
+            EvKind::RunExit { out: RunOutEv::Dropped, .. } => inc("on_run_cancelled_by_message", 1),
+            EvKind::Inv { op: world::OpTag::Kill, .. } => inc("kill", 1),
+            EvKind::Inv { op: world::OpTag::Stop, .. } => inc("stop", 1),
+            EvKind::Cancelled { .. } => inc("operation_cancelled", 1),
+            EvKind::Ret { res: world::Res::ErrTimeout { .. }, .. } => inc("timeout_fired", 1),
+            EvKind::Ret { res: world::Res::ErrSend, .. } => inc("send_to_closed_mailbox", 1),
+            EvKind::Ret { res: world::Res::ErrRecv, .. } => inc("reply_dropped", 1),
+            EvKind::Ret { res: world::Res::ErrJoinPanic, .. } | EvKind::Ret { res: world::Res::ErrJoinCancelled, .. } => inc("joined_task_failed", 1),
+            EvKind::StopEnter { killed: false, .. } => last_drop += 1,
+            EvKind::DeadLetter { .. } => inc("dead_letter", 1),
+            _ => {}
         }
     }
+    let _ = (sc, last_drop);
+    inc("spurious_poll", r.rep.spurious_fired);
+    inc("budget_exhaustion", r.probes.budget_exhausted);
+    inc("full_mailbox_wait", r.probes.full_mailbox_waits);
+    if r.phases.iter().any(|q| *q == tokio::sim::Quiescence::Quiescent) && !r.pending_tasks.is_empty() {
+        inc("quiescent_with_live_tasks", 1);
+    }
+}
+
+fn arg<'a>(args: &'a [String], name: &str) -> Option<&'a str> {
+    args.iter().position(|a| a == name).and_then(|i| args.get(i + 1)).map(|s| s.as_str())
+}
+
+fn write_replay(dir: &str, rf: &ReplayFile) -> String {
+    std::fs::create_dir_all(dir).ok();
+    let path = format!("{dir}/{}-{}-{:016x}-{}.json", rf.property, rf.signature.replace([':', '/', ' '], "_"), rf.seed, rf.run_index);
+    std::fs::write(&path, serde_json::to_string_pretty(rf).unwrap()).expect("write replay");
+    path
+}
+
+fn cmd_run(args: &[String]) -> i32 {
+    let prop = arg(args, "--prop").expect("--prop").to_string();
+    let tier = arg(args, "--tier").unwrap_or("quick").to_string();
+    let seed: u64 = arg(args, "--seed").and_then(|s| s.parse().ok()).unwrap_or(20260101);
+    let shard: u64 = arg(args, "--shard").and_then(|s| s.parse().ok()).unwrap_or(0);
+    let nshards: u64 = arg(args, "--nshards").and_then(|s| s.parse().ok()).unwrap_or(1);
+    let out = arg(args, "--out").unwrap_or("/dev/stdout").to_string();
+    let replay_dir = arg(args, "--replay-dir").unwrap_or("../replays").to_string();
+    let scenarios: u64 = arg(args, "--scenarios").and_then(|s| s.parse().ok()).unwrap_or_else(|| profiles::budget(&prop, &tier).0);
+    let scheds: u64 = arg(args, "--schedules").and_then(|s| s.parse().ok()).unwrap_or_else(|| profiles::budget(&prop, &tier).1);
+    let max_viol: usize = arg(args, "--max-violations").and_then(|s| s.parse().ok()).unwrap_or(3);
+    let t0 = std::time::Instant::now();
+    let mut st = Stats { property: prop.clone(), tier: tier.clone(), seed, shard, nshards, features: features().iter().map(|s| s.to_string()).collect(), ..Default::default() };
+    match exec::accessor_table_check() {
+        Ok(n) => st.table_check = Some(n),
+        Err(why) => {
+            if prop == "C05" {
+                let v = Violation { prop: "C05".into(), sig: "accessor-table".into(), text: why.clone(), seq: 0 };
+                st.violations.push(serde_json::json!({"violation": v, "replay": serde_json::Value::Null, "table": true}));
+            }
+        }
+    }
+    let mut fps: BTreeSet<u64> = BTreeSet::new();
+    let mut seen_sigs: BTreeSet<String> = BTreeSet::new();
+    let mut i = shard;
+    'outer: while i < scenarios {
+        let sseed = mix(seed, i);
+        let (family, sc) = profiles::scenario(&prop, &tier, sseed, i);
+        st.scenarios += 1;
+        *st.families.entry(family.to_string()).or_insert(0) += 1;
+        for j in 0..scheds {
+            let cfg = gen::gen_sched(mix(sseed, 1000 + j));
+            let jd = judge(&prop, &sc, &cfg);
+            st.evaluations += 1;
+            *st.strategies.entry(cfg.strategy.name().to_string()).or_insert(0) += 1;
+            st.decisions_total += jd.res.rep.steps;
+            if jd.res.inconclusive() {
+                st.inconclusive += 1;
+            }
+            match jd.res.phases.last() {
+                Some(tokio::sim::Quiescence::AllDone) => st.all_done += 1,
+                Some(tokio::sim::Quiescence::Quiescent) => st.quiescent_with_pending += 1,
+                _ => {}
+            }
+            // virtual time actually simulated (the sentinel jump at quiescence is not counted)
+            let vt = jd.res.log.iter().filter(|e| !matches!(e.k, world::EvKind::Phase { .. } | world::EvKind::Graph { .. } | world::EvKind::DlCount { .. })).map(|e| e.t).filter(|t| *t < 5_000_000_000_000).max().unwrap_or(0);
+            st.virtual_ms_total += vt / 1000;
+            for (k, v) in &jd.checked.0 {
+                *st.checked.entry(k.to_string()).or_insert(0) += v;
+            }
+            count_faults(&sc, &jd.res, &mut st);
+            let nontrivial = profiles::nontrivial(&prop, &jd.checked);
+            if nontrivial {
+                st.nontrivial += 1;
+                fps.insert(h64(&(&jd.res.rep.decisions, order_fp(&jd.res))));
+            }
+            if st.samples.len() < 3 && nontrivial && shard == 0 {
+                st.samples.push(serde_json::json!({"family": family, "run_index": i, "schedule_index": j, "scenario": sc, "strategy": cfg.strategy, "decisions": jd.res.rep.decisions, "events": jd.res.log.len()}));
+            }
+            if !jd.violations.is_empty() {
+                let v0 = jd.violations[0].clone();
+                let key = format!("{}:{}", v0.prop, v0.sig);
+                if seen_sigs.insert(key) {
+                    // minimise, then write the replay file from a fresh execution of the minimised case
+                    let (msc, mcfg, mv, execs) = minimise::minimise(&prop, &v0, &sc, &cfg, if tier == "quick" { 600 } else { 2000 });
+                    let mut rcfg = mcfg.clone();
+                    let jd2 = judge(&prop, &msc, &rcfg);
+                    rcfg.replay = Some(jd2.res.rep.decisions.clone());
+                    let rf = ReplayFile {
+                        property: prop.clone(),
+                        signature: mv.sig.clone(),
+                        engine: "S".into(),
+                        features: features().iter().map(|s| s.to_string()).collect(),
+                        seed,
+                        run_index: i,
+                        scenario: msc,
+                        sched: rcfg,
+                        violation: mv.clone(),
+                        log_digest: format!("{:016x}", log_digest(&jd2.res)),
+                        minimised: true,
+                        history: jd2.res.log.clone(),
+                    };
+                    let path = write_replay(&replay_dir, &rf);
+                    st.violations.push(serde_json::json!({"violation": mv, "replay": path, "minimiser_executions": execs, "original_size": sc.size(), "minimised_size": rf.scenario.size()}));
+                    if st.violations.len() >= max_viol {
+                        break 'outer;
+                    }
+                }
+            }
+        }
+        i += nshards;
+    }
+    st.wall_s = t0.elapsed().as_secs_f64();
+    st.extra.insert("distinct_fps".into(), serde_json::json!(fps.iter().map(|x| format!("{x:016x}")).collect::<Vec<_>>()));
+    std::fs::write(&out, serde_json::to_string(&st).unwrap()).expect("write stats");
+    if st.violations.is_empty() {
+        0
+    } else {
+        1
+    }
+}
+
+fn cmd_replay(args: &[String]) -> i32 {
+    let path = &args[0];
+    let rf: ReplayFile = serde_json::from_str(&std::fs::read_to_string(path).expect("read replay file")).expect("parse replay file");
+    let want: Vec<String> = features().iter().map(|s| s.to_string()).collect();
+    if rf.features != want {
+        eprintln!("replay: this binary has features {want:?}, the file was recorded with {:?}", rf.features);
+        return 3;
+    }
+    let jd = judge(&rf.property, &rf.scenario, &rf.sched);
+    let digest = format!("{:016x}", log_digest(&jd.res));
+    for e in &jd.res.log {
+        println!("{}", serde_json::to_string(e).unwrap());
+    }
+    println!("decisions: {:?}", jd.res.rep.decisions);
+    if let Some(d) = jd.res.rep.diverged_at {
+        println!("REPLAY-DIVERGED at decision {d}: the code under test no longer follows the recorded schedule");
+    }
+    let same_sig = jd.violations.iter().any(|v| v.prop == rf.violation.prop && v.sig == rf.violation.sig);
+    for v in &jd.violations {
+        println!("violation: {} {} @seq {}: {}", v.prop, v.sig, v.seq, v.text);
+    }
+    println!("digest: {digest} (recorded {})", rf.log_digest);
+    if same_sig && digest == rf.log_digest {
+        println!("REPRODUCED property={} signature={} (identical history)", rf.property, rf.signature);
+        1
+    } else if same_sig {
+        println!("REPRODUCED property={} signature={} (history differs from the recording)", rf.property, rf.signature);
+        1
+    } else {
+        println!("NOT-REPRODUCED property={} signature={}", rf.property, rf.signature);
+        0
+    }
+}
+
+/// Determinism gate: every seed executed twice in this process and digests written out, so that the
+/// driver can also compare across processes and worker counts.
+fn cmd_determinism(args: &[String]) -> i32 {
+    let prop = arg(args, "--prop").unwrap_or("C01").to_string();
+    let seed: u64 = arg(args, "--seed").and_then(|s| s.parse().ok()).unwrap_or(20260101);
+    let n: u64 = arg(args, "--n").and_then(|s| s.parse().ok()).unwrap_or(200);
+    let shard: u64 = arg(args, "--shard").and_then(|s| s.parse().ok()).unwrap_or(0);
+    let nshards: u64 = arg(args, "--nshards").and_then(|s| s.parse().ok()).unwrap_or(1);
+    let mut bad = 0;
+    let mut i = shard;
+    while i < n {
+        let sseed = mix(seed, i);
+        let (_, sc) = profiles::scenario(&prop, "quick", sseed, i);
+        let cfg = gen::gen_sched(mix(sseed, 1000));
+        let a = exec::execute(&sc, &cfg);
+        let b = exec::execute(&sc, &cfg);
+        let burn = a.probes.burn_used;
+        let (da, db) = (log_digest(&a), log_digest(&b));
+        // and once more following the recorded decision list
+        let mut rcfg = cfg.clone();
+        rcfg.replay = Some(a.rep.decisions.clone());
+        let c = exec::execute(&sc, &rcfg);
+        let dc = log_digest(&c);
+        if !burn && (da != db || da != dc || c.rep.diverged_at.is_some()) {
+            bad += 1;
+            eprintln!("NONDETERMINISM prop={prop} run={i}: {da:016x} {db:016x} replay {dc:016x} diverged={:?}", c.rep.diverged_at);
+        }
+        println!("{prop} {i} {da:016x}");
+        i += nshards;
+    }
+    if bad > 0 {
+        2
+    } else {
+        0
+    }
+}
+
+fn cmd_show(args: &[String]) -> i32 {
+    let prop = arg(args, "--prop").unwrap_or("C01").to_string();
+    let seed: u64 = arg(args, "--seed").and_then(|s| s.parse().ok()).unwrap_or(20260101);
+    let i: u64 = arg(args, "--index").and_then(|s| s.parse().ok()).unwrap_or(0);
+    let j: u64 = arg(args, "--sched").and_then(|s| s.parse().ok()).unwrap_or(0);
+    let tier = arg(args, "--tier").unwrap_or("quick").to_string();
+    let sseed = mix(seed, i);
+    let (family, sc) = profiles::scenario(&prop, &tier, sseed, i);
+    let cfg = gen::gen_sched(mix(sseed, 1000 + j));
+    println!("family {family}\nscenario {}\nsched {}", serde_json::to_string(&sc).unwrap(), serde_json::to_string(&cfg).unwrap());
+    let jd = judge(&prop, &sc, &cfg);
+    for e in &jd.res.log {
+        println!("{}", serde_json::to_string(e).unwrap());
+    }
+    println!("phases {:?} pending {:?}", jd.res.phases, jd.res.pending_tasks);
+    for v in &jd.violations {
+        println!("violation: {} {} @seq {}: {}", v.prop, v.sig, v.seq, v.text);
+    }
+    println!("checked {:?}", jd.checked.0);
+    0
+}
+
+fn main() {
+    install_panic_hook();
+    let args: Vec<String> = std::env::args().skip(1).collect();
+    let code = match args.first().map(|s| s.as_str()) {
+        Some("run") => cmd_run(&args[1..]),
+        Some("replay") => cmd_replay(&args[1..]),
+        Some("determinism") => cmd_determinism(&args[1..]),
+        Some("show") => cmd_show(&args[1..]),
+        Some("features") => {
+            println!("{}", features().join(","));
+            0
+        }
+        _ => {
+            eprintln!("usage: simh run|replay|determinism|show|features ...");
+            2
+        }
+    };
+    std::process::exit(code);
 }
